@@ -32,6 +32,20 @@ CHECKS = {
              "copy must leave the original untouched and vice versa.",
         note="exceptions raised by the calls are not judged here. " + TRUST,
         design="2/C09"),
+    "C10": dict(
+        category="exploration", engine="E1",
+        technique="exhaustive enumeration of qualification scenarios x schema depths x identifier spellings x normalisation strategies; structural visibility oracle + DuckDB second opinion; exhaustive BMP sweep for normalize_identifier",
+        text="57 query shapes (unqualified / partially qualified columns, shadowing aliases, alias references in WHERE/GROUP BY/HAVING/"
+             "ORDER BY, ordinals, USING, stars incl. EXCLUDE/REPLACE, derived tables and CTEs with column lists, correlated subqueries "
+             "with shadowing at two levels, set operations, LATERAL, QUALIFY, DISTINCT ON, ambiguous and unknown columns) are qualified "
+             "under schema depth 1-3, three spellings and dialects covering every normalisation strategy. The result must alias every "
+             "table, bind every column to a source visible at that point (or an output name under ORDER BY / DISTINCT ON), expand stars "
+             "in schema order, keep output names, be a fixpoint of qualify on the tree and through the text, and - DuckDB dialect - "
+             "return the same rows as the original on a database with distinct column values. normalize_identifier is applied to every "
+             "BMP code point and 100 case-adversarial 2-character strings, quoted and unquoted, per strategy: idempotent, and never "
+             "altering case-sensitive identifiers.",
+        note="OptimizeError is an allowed outcome; ambiguity that the library resolves instead of refusing is not judged. " + TRUST + "; DuckDB 1.5.5",
+        design="2/C10"),
     "C11": dict(
         category="exploration", engine="E1",
         technique="exhaustive enumeration of queries (cost <= k) x ALL small databases; differential oracle against SQLite and DuckDB",
